@@ -153,7 +153,6 @@ func (g *UpdGen) Gen() []UAction {
 				if v.T == "L" || (v.T != "M" && g.r.Bool()) {
 					st = Step{IsIdx: true, Idx: g.r.Intn(5)}
 				}
-				g.noRead[root] = true
 				plans = append(plans, plan{"set", Operand{Kind: "path", Root: []byte(root), Steps: []Step{st}}})
 			}
 		case 4, 5:
@@ -165,7 +164,6 @@ func (g *UpdGen) Gen() []UAction {
 			conts = append(conts, "l1", "m1")
 			if root := g.freshRoot(conts); root != "" {
 				v, _ := g.item.get(root)
-				g.noRead[root] = true
 				if v.T == "L" || (v.T != "M" && g.r.Bool()) {
 					seen := map[int]bool{}
 					for k := 0; k < 1+g.r.Intn(3); k++ {
@@ -184,14 +182,12 @@ func (g *UpdGen) Gen() []UAction {
 			cands := g.attrsOfType("N", "SS", "NS", "BS", "L")
 			cands = append(cands, "n1", "ss1", "ns1", "newset", "newnum")
 			if root := g.freshRoot(cands); root != "" {
-				g.noRead[root] = true
 				plans = append(plans, plan{"add", Operand{Kind: "path", Root: []byte(root)}})
 			}
 		default:
 			cands := g.attrsOfType("SS", "NS", "BS")
 			cands = append(cands, "ss1", "ns1", "bs1", "nosuch")
 			if root := g.freshRoot(cands); root != "" {
-				g.noRead[root] = true
 				plans = append(plans, plan{"delete", Operand{Kind: "path", Root: []byte(root)}})
 			}
 		}
